@@ -23,7 +23,8 @@ validate / store the definition / move the association / restart / apply the sta
 that every sub-step has its own lemma in Kap/Proofs/C14*.lean.
 Abstracted: task type (all pool scripts are stream tasks), the Error / Created / Modified / LastEnabled fields,
 snapshots (their transactions are counted, their content is not modelled), ID syntax check (IDs are well formed),
-storage faults (a transaction commits; crash points are modelled instead), tasks that die at run time.
+storage faults (a transaction commits; crash points are modelled instead; Kap/Model/C14Fault.lean adds them).
+A task that dies at run time is the pseudo-request `Op.die` (`dieTask`).
 Core Lean only.
 -/
 namespace Kap.C14
@@ -175,6 +176,7 @@ inductive Op where
   | tupdate (id : String) (newId : String) (script : String)
   | tdelete (id : String)
   | restart
+  | die (id : String)     -- not a request: the executing task `id` dies at run time (a node fails)
 deriving DecidableEq, Repr, Inhabited
 
 /-- Which revision of the two handlers is modelled.
@@ -416,6 +418,14 @@ def updateTemplate (env : Env) (fail : List String) (w : World) (id newId script
 /-- handleDeleteTemplate. -/
 def deleteTemplate (w : World) (id : String) : World × Resp := ((tmplDelete w id).note "tdelete", .ok)
 
+/-! ### run-time death -/
+
+/-- A task that dies on its own: the goroutine startTask left behind sees `et.Wait()` return an error, stops the task
+(TaskMaster.StopTask removes it from `tasks`) and records the error (saveLastError: one transaction when the task is
+stored). The stored definition — its status included — is untouched. Nothing happens for a task that does not execute. -/
+def dieTask (w : World) (id : String) : World × Resp :=
+  if w.exec id then ((saveLastError (stopTask w id) id).note "die", .ok) else (w.note "die-not-executing", .ok)
+
 /-! ### process start -/
 
 /-- Service.Open on a fresh TaskMaster: start every task stored as enabled (failures are only logged). -/
@@ -442,6 +452,7 @@ def handle (v : Variant) (env : Env) (fail : List String) (w : World) : Op → W
   | .tupdate id n s => updateTemplate env fail w id n s
   | .tdelete id => deleteTemplate w id
   | .restart => ((boot env fail w.store w.br).note "restart", .ok)
+  | .die id => dieTask w id
 
 /-- The file a crash at the crash point of the request leaves. -/
 def crashFile (w : World) : Store := match w.snap with | some s => s | none => w.store
